@@ -149,6 +149,14 @@ def history_family():
                        trans=[T(104, b'out', None, [6])])
                 o = N('state', 6, trans=[T(108, b'back', None, [9])])
                 out.append(N('scxml', 0, [s1, o]))
+    # a history that is a direct child of a <parallel>: its completion are the regions (shallow) / everything below (deep)
+    for kind in ('hd', 'hs'):
+        for default_to in ([3, 6], [2, 5]):
+            a = N('state', 2, [N('state', 3, trans=[T(201, b'n', None, [4])]), N('state', 4)])
+            b = N('state', 5, [N('state', 6, trans=[T(202, b'n', None, [7])]), N('state', 7, trans=[T(205, b'k', None, [6])])])
+            par = N('parallel', 1, [N(kind, 9, trans=[T(203, None, None, default_to)]), a, b], trans=[T(204, b'out', None, [8])])
+            o = N('state', 8, trans=[T(208, b'back', None, [9])])
+            out.append(N('scxml', 0, [par, o]))
     return out
 
 
